@@ -69,8 +69,24 @@ func runC04S(k *kernel.K) {
 	}, func() { clEOF = true }, func() { clEOF = true })
 	// some time passes before the client sends its CONNECT (less than the timeout)
 	k.Advance(time.Duration(1+w.Draw(int(timeout/time.Second)-2)) * time.Second)
+	// ... and sometimes the dial to the target takes a good part of the timeout as well
+	slowDial := w.Chance(1, 2)
+	if slowDial {
+		n.AutoDial = false
+		k.Probe("c04s_slow_dial")
+	}
 	cl.Inject([]byte("CONNECT target.test:443 HTTP/1.1\r\nHost: target.test:443\r\n\r\n"))
-	k.Drain()
+	if !slowDial {
+		k.Drain()
+	} else {
+		k.Settle() // (not Drain: the dial stays pending)
+		k.Advance(timeout * 6 / 10)
+		for _, pd := range n.Pending() {
+			n.Settle(pd, "ok")
+		}
+		n.AutoDial = true
+		k.Drain()
+	}
 	if !established || rp.Msgs[0].Status != 200 || tg == nil {
 		k.Fail("C04.all_delivered", map[string]string{"dir": "connect_response", "world": "c04s"}, "no 200 response to CONNECT (established=%v)", established)
 		n.Shutdown()
@@ -92,11 +108,17 @@ func runC04S(k *kernel.K) {
 	switch scenario {
 	case "quiet_start":
 		// the tunnel is quiet for most of the timeout right after it was established
-		k.Advance(timeout - 2*time.Second)
+		// (after a slow dial: the pause alone is shorter than the timeout, the dial and the pause
+		// together are longer)
+		quiet := timeout - 2*time.Second
+		if slowDial {
+			quiet = timeout * 6 / 10
+		}
+		k.Advance(quiet)
 		cl.Inject([]byte("ping1"))
 		k.Drain()
 		if tgRecv.String() != "ping1" {
-			k.Fail("C04.all_delivered", map[string]string{"dir": "client_to_target", "scenario": scenario}, "the tunnel was established %v ago and quiet since (timeout %v); the client wrote 5 bytes, the target received %q (end of stream at the client: %v)", timeout-2*time.Second, timeout, tgRecv.String(), clEOF)
+			k.Fail("C04.all_delivered", map[string]string{"dir": "client_to_target", "scenario": scenario}, "the tunnel was established %v ago and quiet since (timeout %v, slow dial before that: %v); the client wrote 5 bytes, the target received %q (end of stream at the client: %v)", quiet, timeout, slowDial, tgRecv.String(), clEOF)
 		}
 	case "slow_receiver":
 		upload := w.Chance(1, 2)
